@@ -1,4 +1,5 @@
 import AslProofs.IniHistory
+import AslProofs.IniNames
 import AslProofs.CsvQ
 import AslProofs.CsvTable
 import AslProps.C18Spec
@@ -16,7 +17,7 @@ open AslModel
 open AslModel.Ini hiding Bytes
 open AslModel.Csv (Cell Dec parseRow writeRow isNumber atofDec)
 open C18Spec hiding Bytes
-open AslProofs.Ini (Op run setsOf path AnyOp anyRun SameLine Pointwise isEntryLine)
+open AslProofs.Ini (Op run setsOf path AnyOp anyRun SameLine Pointwise isEntryLine NameOk oneShot nameWitnesses sessions)
 open AslProofs.Csv (cellText CellOK numValue decValue ColOK StrOK NumText CellWF expected CellWFsemi normalise ItemWF)
 
 abbrev Bytes := List UInt8
@@ -171,6 +172,86 @@ theorem ini_order_file (doc : List Item) (hd : ∀ it ∈ doc, it.WF) (eol : Byt
     have hp : (fun (l : Bytes) => !isEntryLine l && !l.isEmpty) [] = false := by simp
     rw [← AslProofs.Ini.filter_append_blanks _ hp _ b2 hb2, ← hL, AslProofs.Ini.filter_append_blanks _ hp _ b1 hb1]
     exact (AslProofs.Ini.pointwise_filter _ _ _ e3).trans e2
+
+/-! ## IniFile: which names round-trip, sessions on one path -/
+
+/-- **ini_name_roundtrip.**  `NameOk` (a Bool, `AslProofs/IniNames.lean`) is sufficient: for every document of the
+    grammar, every section and key with `NameOk s k` — sections may be empty, hold blanks (outer ones too), `[`, `=`,
+    `#`, `;`; keys may hold blanks, `#`, `;`, `[`, `]` after their first byte — and every value without outer blanks,
+    `set("s/k", v)`, destructor, fresh `IniFile`: `operator[]("s/k")` is `v`, `has` is true, and every other entry
+    reads as the document had it. -/
+theorem ini_name_roundtrip (doc : List Item) (hd : ∀ it ∈ doc, it.WF) (eol : Bytes) (he : LineEnd eol) (finalNewline : Bool)
+    (s k v : Bytes) (hn : NameOk s k = true) (hv : ValOK v) :
+    ∃ obj file, run (Ini.read (renderDoc doc eol finalNewline) true, renderDoc doc eol finalNewline)
+        [Op.set ⟨s, k, v⟩, Op.write] = some (obj, file) ∧
+      (∀ sw, Ini.get (Ini.read file sw) (path s k) = v) ∧
+      (∀ sw s' k', 47 ∉ s' → ¬ (s' = s ∧ k' = k) →
+        Ini.get (Ini.read file sw) (path s' k') = (relGet doc s' k').getD []) := by
+  obtain ⟨hs, hs47, hk⟩ := (AslProofs.Ini.nameOk_iff s k).mp hn
+  obtain ⟨obj, file, hr, hg, _⟩ := ini_persist doc hd eol he finalNewline [Op.set ⟨s, k, v⟩]
+    (by intro o ho; simp [setsOf] at ho; subst ho; exact ⟨hs, hs47, hk, hv⟩)
+  refine ⟨obj, file, hr, ?_, ?_⟩
+  · intro sw
+    rw [hg sw s k hs47]
+    simp [setsOf, afterSets]
+  · intro sw s' k' h47 hne
+    rw [hg sw s' k' h47]
+    have : ¬ (s = s' ∧ k = k') := fun h => hne ⟨h.1.symm, h.2.symm⟩
+    simp [setsOf, afterSets, this]
+
+/-- the section ` [=#` with the key `a #;[]` is allowed -/
+example : NameOk [32, 91, 61, 35] [97, 32, 35, 59, 91, 93] = true ∧ ValOK [49] := by
+  refine ⟨by decide, by decide, ?_, ?_, by decide⟩ <;>
+    (intro c hc; simp at hc; subst hc; unfold White; decide)
+
+/-- **ini_name_necessary.**  Every clause of `NameOk` is needed: for each of the names of `nameWitnesses` (one per
+    clause: empty key; key with `=`, LF, `/`; key starting with a blank, `#`, `;`, `[`, a byte below `0`, a byte
+    above 127; key ending in a blank or CR; section with `]`, LF, `/`) `set("s/k", "1")` on an empty file, destructor,
+    fresh `IniFile` does **not** return `1` (the same histories run on the real library from
+    `corpus/C18/names.ops`; the INI format has no escaping, so these are limits of the format, recorded in
+    `outside_findings.txt`). -/
+theorem ini_name_necessary :
+    ∀ w ∈ nameWitnesses, NameOk w.1 w.2 = false ∧ oneShot w.1 w.2 [49] ≠ some [49] := by decide
+
+/-- **ini_sessions.**  Any number of sessions on one path, each one: open the file the previous one left
+    (`shouldwrite`), any sequence of well-formed `set`s and explicit `write()`s, destructor.  After **every prefix**
+    of the history of sessions (`ss.take n`, any `n`) no `write` has read out of bounds and a fresh `IniFile` on the
+    file returns for every entry the value of the last `set` of that entry in those sessions, else the value of the
+    original document; the file is again a document of the grammar.  (`IniFile` has no operation that deletes a key
+    or a section — `operator[]`, `set`, `write` are the whole mutating interface — so histories consist of sets and
+    writes; a prefix that stops *inside* a session is the case `ops` = that prefix of `ini_persist`.) -/
+theorem ini_sessions (ss : List (List Op)) (hss : ∀ ops ∈ ss, ∀ o ∈ setsOf ops, o.WF) (n : Nat)
+    (doc : List Item) (hd : ∀ it ∈ doc, it.WF) (eol : Bytes) (he : LineEnd eol) (finalNewline : Bool) :
+    ∃ file, sessions (renderDoc doc eol finalNewline) (ss.take n) = some file ∧
+      (∀ sw s k, 47 ∉ s →
+        Ini.get (Ini.read file sw) (path s k) = (afterSets doc (setsOf (ss.take n).flatten) s k).getD []) ∧
+      AslProofs.Ini.IsDoc file := by
+  have hss' : ∀ ops ∈ ss.take n, ∀ o ∈ setsOf ops, o.WF := fun ops h => hss ops (List.mem_of_mem_take h)
+  generalize ss.take n = ts at hss'
+  clear hss
+  induction ts generalizing doc eol finalNewline with
+  | nil =>
+    refine ⟨_, rfl, ?_, ⟨doc, eol, finalNewline, hd, he, rfl⟩⟩
+    intro sw s k hs
+    unfold path
+    rw [AslProofs.Ini.get_slash _ s k hs, AslProofs.Ini.lookupD,
+      AslProofs.Ini.read_render_lookup doc hd eol he finalNewline sw s k]
+    rfl
+  | cons ops t ih =>
+    obtain ⟨obj, file, hr, _, doc', eol', fnl', hd', he', hfile, hrel⟩ :=
+      ini_persist doc hd eol he finalNewline ops (hss' ops (by simp))
+    obtain ⟨file2, hs2, hg2, hdoc2⟩ := ih doc' hd' eol' he' fnl' (fun o ho => hss' o (by simp [ho]))
+    refine ⟨file2, ?_, ?_, hdoc2⟩
+    · simp only [sessions, hr]
+      rw [hfile]; exact hs2
+    · intro sw s k hs
+      rw [hg2 sw s k hs, AslProofs.Ini.setsOf_flatten_cons]
+      exact AslProofs.Ini.afterSets_chain doc doc' _ _ s k (hrel s k)
+
+/-- two sessions: `set("a/x","1")`, `write()`, `set("a/y","2")`; then `set("a/x","3")` — the abstract map ends with
+    `a/x = 3`, `a/y = 2` -/
+example : afterSets [] (setsOf ([[Op.set ⟨[97], [120], [49]⟩, Op.write, Op.set ⟨[97], [121], [50]⟩],
+    [Op.set ⟨[97], [120], [51]⟩]] : List (List Op)).flatten) [97] [120] = some [51] := by decide
 
 /-! ## TabularDataFile -/
 
